@@ -253,4 +253,26 @@ func init() {
 		Assumptions:  []string{"the work queue is a recording fake; the set-informer closures registered in NewStatefulSetController (which only call enqueueStatefulSet) are exercised through enqueueStatefulSet directly because the constructor starts an event broadcaster"},
 		OutsideClaim: []string{"sequences of several events", "the real rate-limiting queue"},
 	})
+
+	helperStubs := map[string]string{
+		pkgHelper + ".FromBuiltinStatefulSet": "vFromBuiltinModel",
+	}
+	register(&spec{
+		ID: "C17", Title: "Upgrade from built-in StatefulSet never loses pods and survives interruption",
+		Runs: []runSpec{
+			{Name: "upgrade", Pkg: pkgHelper, Func: "VH_Upgrade", Quick: []int{2, 1, 3}, Thorough: []int{3, 2, 3},
+				Bounds: func(a []int) string {
+					return fmt.Sprintf("0..%d revisions of the set plus one foreign revision, Advanced object pre-existing or not, selector = matchLabels (1 or 2 keys) or matchLabels+matchExpressions, %d interrupted run(s) each failing (5 error kinds) or crashing at any API call, then one clean run", a[0], a[1])
+				},
+				Asserts: []string{"the built-in set is deleted with orphan propagation", "an Advanced StatefulSet exists before the built-in one is removed", "same spec", "same status",
+					"every revision of the set carries the upgrade marker", "selector labels are removed from every revision of the set", "the built-in set is gone exactly when the helper reported success"},
+				Covers: []string{"built-in delete issued", "upgrade completed", "crash injected", "advanced object pre-exists"}},
+			{Name: "upgrade-expression-selector", Pkg: pkgHelper, Func: "VH_Upgrade", Quick: []int{1, 0, 4}, Thorough: []int{2, 1, 4},
+				Bounds:  func(a []int) string { return "as above including a selector made of matchExpressions only" },
+				Asserts: []string{"selector labels are removed from every revision of the set"}},
+		},
+		Stubs:        helperStubs,
+		Assumptions:  []string{"FromBuiltinStatefulSet (a JSON round trip) is replaced by a field-copying model during symbolic execution; the real function runs in the native replay", "the pod and claim clients are not implemented by the fakes: any call to them crashes the harness"},
+		OutsideClaim: []string{"more than two interruptions", "arbitrary selectors and label sets (four fixed shapes)"},
+	})
 }
